@@ -132,6 +132,125 @@ def pick_focus(spec):
         return []
 
 
+def build_envs(spec, cats):
+    shared_env = O.Env(cats, 'shared' if spec['cat_mode'] == 'shared' else 'op',
+                       'shared' if spec['rnd_mode'] == 'shared' else 'op', spec.get('meta_share', False))
+    rds = sorted({op['rd'] for cl in spec['clients'] for op in cl if 'rd' in op})
+    shared_env.prebuild_renderers(rds)
+    envs = []
+    for cl in spec['clients']:
+        env = O.Env(cats, spec['cat_mode'], spec['rnd_mode'], spec.get('meta_share', False), shared=shared_env)
+        env.prebuild_renderers(rds)
+        envs.append(env)
+    return shared_env, envs
+
+
+def _shared_objects(shared_env, envs):
+    out = []
+    seen = set()
+    for i, e in enumerate([shared_env] + envs):
+        for rd, r in sorted((e._rnd or {}).items()):
+            if id(r) not in seen:
+                seen.add(id(r))
+                out.append(('renderer[%s]' % rd, r))
+                out.append(('renderer[%s].dialect' % rd, getattr(r, '__dict__', {}).get('dialect', None)))
+        if e._cats is not None and id(e._cats) not in seen:
+            seen.add(id(e._cats))
+            out.append(('catalogs', e._cats))
+    return out
+
+
+def _forked(fn):
+    """Run fn() in a forked grandchild and return its JSON-able result (None on failure)."""
+    r, w = os.pipe()
+    pid = os.fork()
+    if pid == 0:
+        code = 0
+        try:
+            os.close(r)
+            data = json.dumps(fn()).encode()
+            with os.fdopen(w, 'wb') as f:
+                f.write(data)
+        except BaseException:  # noqa
+            code = 3
+        finally:
+            os._exit(code)
+    os.close(w)
+    with os.fdopen(r, 'rb') as f:
+        data = f.read()
+    os.waitpid(pid, 0)
+    try:
+        return json.loads(data.decode())
+    except Exception:
+        return None
+
+
+def find_write_functions(spec):
+    """Which repo functions write state that outlives a call (module / class level data, function defaults, the run's
+    shared renderer and catalog objects) while this scenario's ops run?  Pass 1 (one grandchild): which state paths
+    change at all.  Pass 2 (another, pristine grandchild): re-run under LINE events and note in which function the
+    fingerprint of those paths changes.  Only used to direct the schedule search (never an oracle)."""
+    from . import state
+    import sys as _sys
+    mon = _sys.monitoring
+    cats = corpus()['catalogs']
+    prefixes = tuple(resolve_scope(['repo']))
+    root = os.path.realpath(repo_root()) + os.sep
+
+    def run_all(envs):
+        for cl, env in zip(spec['clients'], envs):
+            for op in cl:
+                try:
+                    O.run_op(op, env)
+                except BaseException:  # noqa
+                    pass
+
+    def pass1():
+        shared_env, envs = build_envs(spec, cats)
+        rl = state.roots(prefixes, _shared_objects(shared_env, envs))
+        f0 = state.fingerprint(rl)
+        run_all(envs)
+        f1 = state.fingerprint(state.roots(prefixes, _shared_objects(shared_env, envs)))
+        return sorted(k for k in f1 if f0.get(k) != f1[k])
+
+    changed = _forked(pass1)
+    if not changed:
+        return {'paths': [], 'fns': []}
+    chset = set(changed)
+
+    def pass2():
+        shared_env, envs = build_envs(spec, cats)
+        rl = [(p_, g) for p_, g in state.roots(prefixes, _shared_objects(shared_env, envs)) if p_ in chset]
+        last = [state.fingerprint_light(rl), None]
+        hits = {}
+        cache = {}
+
+        def cb(code, line):
+            ok = cache.get(code)
+            if ok is None:
+                ok = cache[code] = code.co_filename.startswith(prefixes)
+            if not ok:
+                return mon.DISABLE
+            fp = state.fingerprint_light(rl)
+            if fp != last[0]:
+                last[0] = fp
+                prev = last[1]
+                if prev is not None:
+                    key = (prev.co_filename[len(root):], prev.co_name, prev.co_firstlineno)
+                    hits[key] = hits.get(key, 0) + 1
+            last[1] = code
+
+        mon.use_tool_id(3, 'dsim-wf')
+        mon.register_callback(3, mon.events.LINE, cb)
+        mon.set_events(3, mon.events.LINE)
+        run_all(envs)
+        mon.set_events(3, 0)
+        return sorted([list(k) for k in hits])[:12]
+
+    fns = _forked(pass2) or []
+    return {'paths': changed[:30], 'fns': fns}
+
+
 def choose_focus(spec):
     st = spec['strategy']
     if st.get('kind') == 'focus' and st.get('fn') and st.get('instr') and not spec.get('instr_fn'):
@@ -161,16 +280,10 @@ def run_sim(spec):
     gc.collect()
     gc.disable()
     nclients = len(spec['clients'])
-    shared_env = O.Env(cats, 'shared' if spec['cat_mode'] == 'shared' else 'op',
-                       'shared' if spec['rnd_mode'] == 'shared' else 'op', spec.get('meta_share', False))
-    rds = sorted({op['rd'] for cl in spec['clients'] for op in cl if 'rd' in op})
-    shared_env.prebuild_renderers(rds)
+    shared_env, envs = build_envs(spec, cats)
     clients = []
-    envs = []
     for i, cl in enumerate(spec['clients']):
-        env = O.Env(cats, spec['cat_mode'], spec['rnd_mode'], spec.get('meta_share', False), shared=shared_env)
-        env.prebuild_renderers(rds)
-        envs.append(env)
+        env = envs[i]
         c = Client(i, cl, env)
         if spec.get('budget'):
             c.budgets = [spec['budget'].get(O.op_key(op), 1 << 60) for op in cl]
@@ -255,7 +368,7 @@ def run_sim(spec):
 def dispatch(spec):
     kind = spec.get('cmd', 'sim')
     if kind == 'focus_list':
-        return {'fns': pick_focus(spec)}
+        return {'fns': pick_focus(spec), 'wf': find_write_functions(spec) if spec.get('want_wf') else None}
     if kind == 'ref':
         return run_ref(spec)
     if kind == 'sim':
